@@ -247,4 +247,40 @@ def freshOK (cfg : Cfg) (s : State) : Bool :=
   s.stepCount == 0 && decide (s.actionMask = legalMask cfg s) &&
   decide ((s.blocks.map countNonzero).foldl (· + ·) 0 = cfg.numRows * cfg.numCols)
 
+/-! ### L2: one step of the game as documented (C09)
+
+docs/environments/flat_pack.md and the class docstring: an action names a block, a number of quarter turns and
+the grid coordinates of the top-left corner of the block's 3 × 3 box.  The block is put down iff it has not
+been placed yet, its box lies inside the grid and none of its cells lands on an occupied cell (`legalB`);
+then its cells are written into the grid and it is marked as placed.  Otherwise nothing happens (the step is
+counted).  Reward: cell-dense = number of cells of the placed block / number of grid cells; block-dense =
+1 / num_blocks; 0 when nothing was placed.  The episode ends "if all blocks have been placed on the board" or
+"if the agent has taken `num_blocks` steps". -/
+
+/-- the grid after writing block `blk`, turned `k` quarter turns, with the top-left corner of its box at
+`(r, c)`: the block's entry wherever the block has a cell, the old grid everywhere else -/
+def writeBlock (cfg : Cfg) (g blk : G) (k r c : Nat) : G :=
+  (List.range cfg.numRows).map (fun i => (List.range cfg.numCols).map (fun j =>
+    if (r ≤ i ∧ i < r + 3 ∧ c ≤ j ∧ j < c + 3) ∧
+        Jx.Grid.get (rotateBlock blk (k : Int)) 0 (i - r) (j - c) ≠ 0
+    then Jx.Grid.get (rotateBlock blk (k : Int)) 0 (i - r) (j - c)
+    else Jx.Grid.get g 0 i j))
+
+/-- reward of a successful placement of block `b` -/
+def rewardL2 (rnd : Rat → Rat) (cfg : Cfg) (s : State) (b : Nat) : Rat :=
+  if cfg.cellDense then
+    rnd ((countNonzero (s.blocks.getD b []) : Rat) / ((cfg.numRows * cfg.numCols : Nat) : Rat))
+  else rnd (1 / (s.numBlocks : Rat))
+
+def stepL2 (rnd : Rat → Rat) (cfg : Cfg) (s : State) (b k r c : Nat) : State × TimeStep Obs :=
+  let ok := legalB cfg s b k r c
+  let s1 : State :=
+    { s with grid := if ok then writeBlock cfg s.grid (s.blocks.getD b []) k r c else s.grid
+             placed := if ok then s.placed.set b true else s.placed
+             stepCount := s.stepCount + 1 }
+  let s' : State := { s1 with actionMask := legalMask cfg s1 }
+  let done := s'.placed.all id || decide (s'.numBlocks ≤ s'.stepCount)
+  let rew := if ok then rewardL2 rnd cfg s b else 0
+  (s', if done then termination [rew] (observe s') else transition [rew] (observe s'))
+
 end FlatPack
